@@ -847,3 +847,31 @@ Lemma cursor_noshift (X start stw K0 : Z) R' :
 Proof.
   destruct (rev_rows_end R' K0 0) as (g1 & o1 & rest & E1 & E2). rewrite E1, E2. lia.
 Qed.
+
+(* ---------- non-vacuity: the characterisation evaluated on a three-block call (one block of 3 samples,
+   one of 1 sample, one of 5), for every iteration offset and a range of window sizes *)
+
+Definition rows_eqb (a b : list (Z * Z)) : bool :=
+  (Nat.eqb (length a) (length b)) &&
+  forallb (fun p => (fst (fst p) =? fst (snd p)) && (snd (fst p) =? snd (snd p))) (combine a b).
+
+Definition opt_eqb (a b : option Z) : bool :=
+  match a, b with Some x, Some y => x =? y | None, None => true | _, _ => false end.
+
+Example crdi_blocks_example :
+  let tl := [(5, 3); (20, 4)] in
+  let bl := (0, 0) :: tl in
+  let vec := [100; 101; 102; 103; 104; 105; 106; 107; 108] in
+  forallb (fun sw => forallb (fun left =>
+    let next := get_global_sample sw bl in
+    let last := next + left in
+    let T := topidx last 0 0 tl 9 in
+    match create_rf_data_index 1000 0 true false sw left 77 bl 9 next false with
+    | Some (R, stw) =>
+      rows_eqb R (Rof 1000 sw next last tl) && (stw =? T - sw) && (0 <? stw) &&
+      forallb (fun r => opt_eqb (rows_lookup R (slice vec sw stw) (1000 + r))
+                                (if (next <=? r) && (r <? last) then rows_lookup bl vec r else None))
+              [-1; 0; 1; 2; 3; 4; 5; 6; 7; 19; 20; 21; 22; 23; 24; 25; 26]
+    | None => false
+    end) [1; 2; 3; 4; 5; 6; 15; 16; 17; 18; 19; 20; 21; 30]) [0; 1; 2; 3; 4; 5; 6; 7; 8] = true.
+Proof. vm_compute. reflexivity. Qed.
